@@ -225,7 +225,12 @@ func (g *Gen) applyContract(fr *frame, st *State, fc *FuncContract, key string, 
 	for i, c := range fc.Requires {
 		env := &Env{g: g, st: st, old: pre, vars: vars, pkgPath: pkgPath}
 		t := env.evalBool(c.E)
-		g.addOblig(st, "pre", fmt.Sprintf("pre.%s.%s", siteTag, clauseName(c, i)), t, c.Src)
+		if g.fc != nil && g.fc.AssumePre[shortName(key)] && fr.fn == g.fn {
+			// assume_pre <callee>: the caller's contract takes this precondition as given (listed assumption)
+			g.note("precondition of " + shortKey(key) + " assumed at its calls (assume_pre): " + c.Src)
+		} else {
+			g.addOblig(st, "pre", fmt.Sprintf("pre.%s.%s", siteTag, clauseName(c, i)), t, c.Src)
+		}
 		g.assume(st, t)
 	}
 	if g.panicsNever && !g.ownOnly && !fc.PanicsNever && !fc.Trusted && !fc.IsLib {
@@ -514,11 +519,34 @@ func (g *Gen) havocTarget(env *Env, st *State, m Expr) error {
 			}
 			return nil
 		case "allelems":
-			// every element of every slice/array with this element type
-			s := env.eval(x.Args[0])
-			sl, ok := types.Unalias(s.T).Underlying().(*types.Slice)
-			if !ok {
-				return fmt.Errorf("allelems: not a slice")
+			// every element of every slice/array with this element type (given by a slice expression or a type name)
+			var sl *types.Slice
+			tname := ""
+			switch a := x.Args[0].(type) {
+			case *Ident:
+				tname = a.Name
+			case *Field:
+				if id, ok := a.X.(*Ident); ok {
+					tname = id.Name + "." + a.Name
+				}
+			}
+			if tname != "" {
+				root := strings.SplitN(tname, ".", 2)[0]
+				if _, isVar := env.vars[root]; !isVar && env.lookupLocal(root) == nil {
+					g.dryFacts++
+					if t, terr := g.W.lookupType(&TypeX{Kind: "name", Name: tname}, env.pkgPath); terr == nil {
+						sl = types.NewSlice(t)
+					}
+					g.dryFacts--
+				}
+			}
+			if sl == nil {
+				s := env.eval(x.Args[0])
+				var ok bool
+				sl, ok = types.Unalias(s.T).Underlying().(*types.Slice)
+				if !ok {
+					return fmt.Errorf("allelems: not a slice")
+				}
 			}
 			for _, l := range g.W.shapes.shape(sl.Elem()) {
 				key := g.elemCompKey(sl.Elem(), l.Path)
